@@ -7,6 +7,7 @@ mod apath_ops;
 mod backupops;
 mod diffops;
 mod gcops;
+mod localops;
 mod raceops;
 mod rawarchive;
 mod restoreops;
@@ -29,6 +30,7 @@ fn main() {
         "race" => raceops::run(&sc),
         "restore_raw" => restoreops::run(&sc),
         "walk" => walkops::run(&sc),
+        "local_write" => localops::run(&sc),
         other => json!({"error": format!("unknown scenario kind {other}")}),
     };
     println!("{}", serde_json::to_string(&out).unwrap());
